@@ -19,6 +19,7 @@ use cw_multi_test::{App, AppBuilder, Contract, ContractWrapper, Executor};
 use serde_json::{json, Value};
 
 mod fns;
+mod ltoken;
 
 thread_local! {
     static LAST_PANIC: RefCell<String> = RefCell::new(String::new());
@@ -80,6 +81,14 @@ fn cw20_code() -> Box<dyn Contract<Empty>> {
         cw20_base::contract::execute,
         cw20_base::contract::instantiate,
         cw20_base::contract::query,
+    ))
+}
+
+fn ltoken_code() -> Box<dyn Contract<Empty>> {
+    Box::new(ContractWrapper::new(
+        ltoken::execute,
+        ltoken::instantiate,
+        ltoken::query,
     ))
 }
 
@@ -169,6 +178,7 @@ impl World {
         codes.insert("router".to_string(), app.store_code(router_code()));
         codes.insert("cw20".to_string(), app.store_code(cw20_code()));
         codes.insert("pair2".to_string(), app.store_code(pair_code()));
+        codes.insert("ltoken".to_string(), app.store_code(ltoken_code()));
         World {
             app,
             codes,
